@@ -62,31 +62,65 @@ Definition observe (w : rw) : resp :=
   | None => {| r_status := 200; r_hdr := live w; r_body := out w |}
   end.
 
+(* ---------- *http.Request, as far as a handler can look at it ----------
+   handler.go uses the request for two things only: r.Context() is handed to Component.Render, and r
+   itself to the configured error handler (ErrorHandler(r, err).ServeHTTP(w, r)).  Everything else -
+   method, protocol version, target, header fields, body - is carried here so that the theorems
+   quantify over it. *)
+Inductive ctx_state :=
+| CtxLive                (* no deadline, not cancelled *)
+| CtxDeadlineAhead       (* a deadline that has not passed *)
+| CtxCanceled            (* already cancelled when the handler is entered: ctx.Err() = context.Canceled *)
+| CtxDeadlineExceeded.   (* deadline already passed: ctx.Err() = context.DeadlineExceeded *)
+Definition ctx_done (s : ctx_state) : bool :=
+  match s with CtxCanceled | CtxDeadlineExceeded => true | _ => false end.
+Record request := {
+  q_method : bytes;              (* r.Method, as sent: GET, HEAD, POST, PUT, OPTIONS, PURGE ... *)
+  q_major : N; q_minor : N;      (* r.ProtoMajor, r.ProtoMinor *)
+  q_target : bytes;              (* request target after the path the handler is mounted on (query string) *)
+  q_hdr : headers;               (* r.Header *)
+  q_body : bytes;                (* r.Body *)
+  q_ctx : ctx_state              (* r.Context() *)
+}.
+Definition q_proto (q : request) : bytes := bs "HTTP/" ++ dec (q_major q) ++ [x2e] ++ dec (q_minor q).
+Definition is_head (q : request) : bool := bytes_eqb (q_method q) (bs "HEAD").
+(* what the client of the request receives of a response the server's ResponseWriter was given:
+   net/http sends no body in reply to HEAD (the recorder keeps it) *)
+Definition client_view (q : request) (r : resp) : resp := if is_head q then no_body r else r.
+
 (* An error handler described by the calls it makes on the writer (used to run concrete handlers;
-   the theorems quantify over arbitrary functions rw -> rw). *)
+   the theorems quantify over arbitrary functions request -> rw -> rw). *)
 Inductive eh_op :=
 | OSet (k v : bytes)           (* w.Header().Set(k, v) *)
 | ODel (k : bytes)             (* w.Header().Del(k) *)
 | OWriteHeader (code : N)      (* w.WriteHeader(code) *)
 | OWrite (p : bytes)           (* w.Write(p) *)
-| OError (msg : bytes) (code : N). (* http.Error(w, msg, code) *)
-Definition run_op (w : rw) (o : eh_op) : rw :=
+| OError (msg : bytes) (code : N) (* http.Error(w, msg, code) *)
+| OEcho (k : bytes).           (* w.Header().Set(k, r.Method + " " + r.URL.RawQuery + " " + r.Proto): looks at the request *)
+Definition echo (q : request) : bytes := q_method q ++ [x20] ++ q_target q ++ [x20] ++ q_proto q.
+Definition run_op (q : request) (w : rw) (o : eh_op) : rw :=
   match o with
+  | OEcho k => set_header k (echo q) w
   | OSet k v => set_header k v w
   | ODel k => del_header k w
   | OWriteHeader c => write_header c w
   | OWrite p => write p w
   | OError m c => http_error m c w
   end.
-Definition run_ops (ops : list eh_op) (w : rw) : rw := fold_left run_op ops w.
+Definition run_ops (ops : list eh_op) (q : request) (w : rw) : rw := fold_left (run_op q) ops w.
 
 (* ---------- handler.go ---------- *)
 (* ComponentHandler: Status (0 = unset), ContentType, ErrorHandler (what the handler it returns does to
-   the writer), StreamResponse *)
-Record cfg := { c_status : N; c_ctype : bytes; c_errh : option (rw -> rw); c_stream : bool }.
+   the writer, given the request), StreamResponse *)
+Record cfg := { c_status : N; c_ctype : bytes; c_errh : option (request -> rw -> rw); c_stream : bool }.
 (* Component.Render as the handler sees it: the chunks it writes to its io.Writer, then whether it
    returns an error *)
 Record outcome := { chunks : list bytes; fails : bool }.
+(* a component: what Render does given the context it is called with (all it learns of the request) *)
+Notation component := (ctx_state -> outcome).
+(* concrete components: [aware] ones consult ctx.Err() before writing anything and return it *)
+Definition comp_of (aware : bool) (o : outcome) : component :=
+  fun s => if aware && ctx_done s then {| chunks := []; fails := true |} else o.
 Definition document (o : outcome) : bytes := concat (chunks o).
 
 (* bytes.Buffer.Write appends *)
@@ -96,11 +130,12 @@ Definition with_status (c : cfg) (w : rw) : rw := if c_status c =? 0 then w else
 
 (* ServeHTTPBuffered with the buffer GetBuffer returned holding [buf]: the final buffer content
    (before ReleaseBuffer) and the writer *)
-Definition serve_buffered_on (buf : bytes) (c : cfg) (o : outcome) : bytes * rw :=
+Definition serve_buffered_on (buf : bytes) (q : request) (c : cfg) (k : component) : bytes * rw :=
+  let o := k (q_ctx q) in
   let buf' := render_into buf o in
   if fails o then
     match c_errh c with
-    | Some h => (buf', h (set_header h_ctype (c_ctype c) fresh))
+    | Some h => (buf', h q (set_header h_ctype (c_ctype c) fresh))
     | None => (buf', http_error err_msg 500 fresh)
     end
   else
@@ -108,27 +143,28 @@ Definition serve_buffered_on (buf : bytes) (c : cfg) (o : outcome) : bytes * rw 
     let w := with_status c w in
     (buf', write buf' w).
 (* a buffer from the pool is empty (see the pool below) *)
-Definition serve_buffered (c : cfg) (o : outcome) : rw := snd (serve_buffered_on [] c o).
+Definition serve_buffered (q : request) (c : cfg) (k : component) : rw := snd (serve_buffered_on [] q c k).
 
 (* ServeHTTPStreamed *)
-Definition serve_streamed (c : cfg) (o : outcome) : rw :=
+Definition serve_streamed (q : request) (c : cfg) (k : component) : rw :=
+  let o := k (q_ctx q) in
   let w := set_header h_ctype (c_ctype c) fresh in
   let w := with_status c w in
   let w := fold_left (fun w ch => write ch w) (chunks o) w in
   if fails o then
     match c_errh c with
-    | Some h => h (set_header h_ctype (c_ctype c) w)
+    | Some h => h q (set_header h_ctype (c_ctype c) w)
     | None => http_error err_msg 500 w
     end
   else w.
 
 (* ServeHTTP *)
-Definition serve (c : cfg) (o : outcome) : rw :=
-  if c_stream c then serve_streamed c o else serve_buffered c o.
+Definition serve (q : request) (c : cfg) (k : component) : rw :=
+  if c_stream c then serve_streamed q c k else serve_buffered q c k.
 
-(* the error handler on its own: run on a fresh writer with only the configured Content-Type set *)
-Definition eh_alone (c : cfg) : option resp :=
-  match c_errh c with Some h => Some (observe (h (set_header h_ctype (c_ctype c) fresh))) | None => None end.
+(* the error handler on its own: run, for the same request, on a fresh writer with only the configured Content-Type set *)
+Definition eh_alone (q : request) (c : cfg) : option resp :=
+  match c_errh c with Some h => Some (observe (h q (set_header h_ctype (c_ctype c) fresh))) | None => None end.
 
 (* ---------- runtime.go: bufferPool, GetBuffer, ReleaseBuffer ---------- *)
 (* the pool holds buffers, each with the bytes it currently contains *)
@@ -151,16 +187,16 @@ Definition release_buffer (b : bytes) (p : pool) : pool := [] :: p.
 Definition release_buffer_noreset (b : bytes) (p : pool) : pool := b :: p.
 
 (* one buffered request against the pool *)
-Definition serve_pooled (rel : bytes -> pool -> pool) (p : pool) (pick : nat) (c : cfg) (o : outcome) : pool * rw :=
+Definition serve_pooled (rel : bytes -> pool -> pool) (p : pool) (pick : nat) (q : request) (c : cfg) (k : component) : pool * rw :=
   let '(buf, p1) := get_buffer pick p in
-  let '(buf', w) := serve_buffered_on buf c o in
+  let '(buf', w) := serve_buffered_on buf q c k in
   (rel buf' p1, w).
 (* a history of requests served one after the other *)
-Fixpoint serve_seq (rel : bytes -> pool -> pool) (p : pool) (reqs : list (nat * cfg * outcome)) : pool * list rw :=
+Fixpoint serve_seq (rel : bytes -> pool -> pool) (p : pool) (reqs : list (nat * request * cfg * component)) : pool * list rw :=
   match reqs with
   | [] => (p, [])
-  | (pick, c, o) :: t =>
-      let '(p1, w) := serve_pooled rel p pick c o in
+  | (pick, q, c, k) :: t =>
+      let '(p1, w) := serve_pooled rel p pick q c k in
       let '(p2, ws) := serve_seq rel p1 t in
       (p2, w :: ws)
   end.
